@@ -268,6 +268,46 @@ func ruleStream(c *Ctx) {
 				}
 			}
 		}
+		// what is sent: the parse error (and no value) when parsing failed, the parsed document (and no error) otherwise
+		pm := callsTo(sp, "internalParsedJson.parseMessage")
+		if len(pm) == 1 {
+			e := pm[0].Val.String()
+			failed, succeeded := hasCond(sp, e, token.NEQ, "nil"), hasCond(sp, e, token.EQL, "nil")
+			for _, ef := range sp.Effects {
+				if ef.Kind != "send" || ef.Target != "L:result" {
+					continue
+				}
+				v := ef.Val.String()
+				switch {
+				case failed && !succeeded:
+					if !strings.HasPrefix(v, "lit:Stream{Value:nil,Error:") || !strings.Contains(v, e) {
+						report("worker-result", "a failed parse is not delivered as Stream{Value: nil, Error: (wrapping) the parse error}", "a chunk with a syntax error", worker)
+					}
+				case succeeded && !failed:
+					if !strings.HasPrefix(v, "lit:Stream{Value:&L:") || !strings.HasSuffix(v, ",Error:nil}") {
+						report("worker-result", "a successful parse is not delivered as Stream{Value: &parsed, Error: nil}", "any valid chunk", worker)
+					}
+				default:
+					report("worker-result", "a result is sent without the parse error having been examined", "", worker)
+				}
+			}
+			if succeeded {
+				// the delivered value is a copy of the parser's ParsedJson taken after parsing
+				okCopy := false
+				for _, ef := range sp.Effects {
+					if ef.Kind == "store" && ef.Target == "L:parsed" && ef.At > pm[0].At {
+						if as, ok := ef.Node.(*ast.AssignStmt); ok && len(as.Rhs) == 1 && p.Str(as.Rhs[0]) == "pj.ParsedJson" {
+							okCopy = true
+						}
+					}
+				}
+				if !okCopy {
+					report("worker-result", "the delivered document is not the parser's ParsedJson after parsing", "", worker)
+				}
+			}
+		} else {
+			report("worker-result", "a worker path does not parse its chunk exactly once", "", worker)
+		}
 		if sends != 1 {
 			report("worker-once", fmt.Sprintf("a worker path sends %d values on its result channel; the forwarder receives exactly one per queued channel", sends), "a chunk whose parse fails / succeeds on that path: the stream stalls or a value is lost", worker)
 		}
@@ -299,8 +339,90 @@ func ruleStream(c *Ctx) {
 		okRecv = nRecv == 1
 		return false
 	})
+	// delivery: every received item is handed to the consumer — without blocking if possible, blocking otherwise — until
+	// an error item has been delivered; after that items are only offered without blocking
+	if fsps := bodyLoopPaths(p, fd, forwarder); len(fsps) > 0 {
+		okDeliver, why := true, ""
+		nBlock, nEnd := 0, 0
+		for _, sp := range fsps {
+			if !sp.Feasible() || !sp.Continues {
+				continue
+			}
+			sends := 0
+			for _, ef := range sp.Effects {
+				if ef.Kind == "send" && ef.Target == "P:res" {
+					sends++
+				}
+			}
+			viaSelect, viaDefault, ended, notEnded := false, false, false, false
+			errItem, okItem := false, false
+			for _, cd := range sp.Conds {
+				switch cd.Other {
+				case "branch:select":
+					viaSelect = true
+				case "branch:select!":
+					viaDefault = true
+				case "L:end":
+					ended = true
+				case "!L:end":
+					notEnded = true
+				}
+				if cd.Other == "" && strings.HasSuffix(cd.L.String(), ".Error") && isNilAff(cd.R) {
+					errItem = errItem || cd.Op == token.NEQ
+					okItem = okItem || cd.Op == token.EQL
+				}
+			}
+			setEnd := false
+			for _, ef := range sp.Effects {
+				if ef.Kind == "store" && ef.Target == "L:end" && ef.Val.String() == "true" {
+					setEnd = true
+				}
+			}
+			switch {
+			case viaSelect:
+				if sends != 1 {
+					okDeliver, why = false, "an item taken by the consumer is sent again"
+				}
+			case viaDefault && notEnded && !ended:
+				nBlock++
+				if sends != 2 { // the attempted send of the select plus the blocking one
+					okDeliver, why = false, "an item the consumer was not ready for is dropped although no error has been delivered yet"
+				}
+			case viaDefault && ended && !notEnded:
+				nEnd++
+				if sends != 1 {
+					okDeliver, why = false, "after an error was delivered the forwarder still blocks on the consumer"
+				}
+			default:
+				okDeliver, why = false, "an item is handled without the select / end-state test"
+			}
+			if errItem == okItem || setEnd != errItem {
+				okDeliver, why = false, "the end state is not set exactly when an error item was forwarded"
+			}
+		}
+		c.Check(okDeliver && nBlock >= 2 && nEnd >= 2, "ParseNDStream:forwarder-delivery", p.Pos(forwarder), "non-blocking offer, blocking send until an error item went out, end state set by error items", "the forwarder of ParseNDStream: "+why, "a consumer that is slower than the parser")
+	} else {
+		c.Undecided("ParseNDStream:forwarder-delivery", p.Pos(forwarder), "no loop paths in the forwarder")
+	}
 	c.Check(okRecv, "ParseNDStream:forwarder-order", p.Pos(forwarder), "exactly one receive per queued channel, in queue order", "the forwarder does not receive exactly one value from each queued channel in queue order", "")
 	if len(bad) == 0 {
 		c.Ok("ParseNDStream:protocol", p.Pos(fd), fmt.Sprintf("line completion, error-first, queue-before-go with a fresh channel, final error and one result per worker hold on all %d reader and %d worker paths", nIter, nW))
 	}
+}
+
+// bodyLoopPaths: loop-segment paths of the outermost loop inside a function literal of fd.
+func bodyLoopPaths(p *GoProg, fd *ast.FuncDecl, lit *ast.FuncLit) []*SymPath {
+	var loop ast.Stmt
+	for _, st := range lit.Body.List {
+		switch st.(type) {
+		case *ast.ForStmt, *ast.RangeStmt:
+			if loop == nil {
+				loop = st
+			}
+		}
+	}
+	if loop == nil {
+		return nil
+	}
+	return p.BodyLoopSegmentPaths(fd, lit.Body, loop, 20000)
 }
